@@ -12,6 +12,7 @@ mod harness;
 mod lin;
 mod scn_cont;
 mod scn_exec;
+mod scn_hist;
 mod scn_multi;
 mod payload;
 mod rng;
@@ -24,23 +25,28 @@ const RULE_T: &str = "one evaluation = one simulated run (workload, sizes, fault
 
 const RULE_D: &str = "one evaluation = one simulated run under virtual time (tokio current-thread runtime with paused clock; workload, delays, limits, timeouts and the instants of close/cancel all drawn from run_seed = f(VERIF_SEED, property, run index)); the runtime is deterministic, so distinct = distinct generated workloads (hash of all workload parameters, counted with a hash set merged across workers); non-trivial = at least two pipeline items";
 
+const RULE_H: &str = "one evaluation = one single-threaded history (op sequence, channel kind, sizes, sequence origin all drawn from run_seed = f(VERIF_SEED, property, run index)) executed step by step against an executable reference model, and a second time from a sequence origin next to the u32 wrap where the scenario says so; distinct = distinct histories (hash of all parameters, hash set merged across workers); non-trivial = at least three operations";
+
 struct PropertyCheck {
     parts: Vec<Box<dyn PartRunner>>,
     rule: &'static str,
     quick_s: u64,
     thorough_s: u64,
     assumptions: Vec<String>,
+    /// run the same check a second time in the build with overflow checks + debug assertions
+    checked_build: bool,
 }
 
 fn registry(property: &str) -> Option<PropertyCheck> {
     Some(match property {
-        "C01" => PropertyCheck { parts: vec![Box::new(Part(Arc::new(scn_uni::C01)))], rule: RULE_T, quick_s: 25, thorough_s: 900, assumptions: vec![] },
+        "C01" => PropertyCheck { parts: vec![Box::new(Part(Arc::new(scn_uni::C01)))], rule: RULE_T, quick_s: 25, thorough_s: 900, assumptions: vec![], checked_build: false },
         "C02" => PropertyCheck {
             parts: vec![Box::new(Part(Arc::new(scn_uni::C02Uni))), Box::new(Part(Arc::new(scn_cont::RingLin { property: "C02", kinds: &scn_cont::RINGS })))],
             rule: RULE_T,
             quick_s: 30,
             thorough_s: 900,
             assumptions: vec![],
+            checked_build: false,
         },
         "C06" => PropertyCheck {
             parts: vec![Box::new(Part(Arc::new(scn_exec::ObjExec { property: "C06", multi: false }))), Box::new(Part(Arc::new(scn_exec::ObjExec { property: "C06", multi: true })))],
@@ -48,22 +54,28 @@ fn registry(property: &str) -> Option<PropertyCheck> {
             quick_s: 30,
             thorough_s: 900,
             assumptions: vec![],
+            checked_build: false,
         },
-        "C11" => PropertyCheck { parts: vec![Box::new(Part(Arc::new(scn_exec::ExecRaw { property: "C11" })))], rule: RULE_D, quick_s: 20, thorough_s: 600, assumptions: vec![] },
-        "C12" => PropertyCheck { parts: vec![Box::new(Part(Arc::new(scn_exec::ExecRaw { property: "C12" }))), Box::new(Part(Arc::new(scn_exec::ObjExec { property: "C12", multi: false }))), Box::new(Part(Arc::new(scn_exec::ObjExec { property: "C12", multi: true })))], rule: RULE_D, quick_s: 20, thorough_s: 600, assumptions: vec![] },
-        "C13" => PropertyCheck { parts: vec![Box::new(Part(Arc::new(scn_cont::AllocConc)))], rule: RULE_T, quick_s: 25, thorough_s: 900, assumptions: vec![] },
-        "C18" => PropertyCheck { parts: vec![Box::new(Part(Arc::new(scn_cont::RingLin { property: "C18", kinds: &scn_cont::STANDALONE })))], rule: RULE_T, quick_s: 25, thorough_s: 900, assumptions: vec![] },
-        "C03" => PropertyCheck { parts: vec![Box::new(Part(Arc::new(scn_multi::C03)))], rule: RULE_T, quick_s: 25, thorough_s: 900, assumptions: vec![] },
-        "C09" => PropertyCheck { parts: vec![Box::new(Part(Arc::new(scn_multi::C09)))], rule: RULE_T, quick_s: 25, thorough_s: 900, assumptions: vec![] },
-        "C17" => PropertyCheck { parts: vec![Box::new(Part(Arc::new(scn_multi::C17)))], rule: RULE_T, quick_s: 25, thorough_s: 900, assumptions: vec![] },
-        "C04" => PropertyCheck { parts: vec![Box::new(Part(Arc::new(scn_uni::C04Uni))), Box::new(Part(Arc::new(scn_multi::C04Multi)))], rule: RULE_T, quick_s: 40, thorough_s: 900, assumptions: vec![] },
+        "C11" => PropertyCheck { parts: vec![Box::new(Part(Arc::new(scn_exec::ExecRaw { property: "C11" })))], rule: RULE_D, quick_s: 20, thorough_s: 600, assumptions: vec![], checked_build: false },
+        "C12" => PropertyCheck { parts: vec![Box::new(Part(Arc::new(scn_exec::ExecRaw { property: "C12" }))), Box::new(Part(Arc::new(scn_exec::ObjExec { property: "C12", multi: false }))), Box::new(Part(Arc::new(scn_exec::ObjExec { property: "C12", multi: true })))], rule: RULE_D, quick_s: 20, thorough_s: 600, assumptions: vec![], checked_build: false },
+        "C13" => PropertyCheck { parts: vec![Box::new(Part(Arc::new(scn_cont::AllocConc)))], rule: RULE_T, quick_s: 25, thorough_s: 900, assumptions: vec![], checked_build: false },
+        "C18" => PropertyCheck { parts: vec![Box::new(Part(Arc::new(scn_cont::RingLin { property: "C18", kinds: &scn_cont::STANDALONE })))], rule: RULE_T, quick_s: 25, thorough_s: 900, assumptions: vec![], checked_build: false },
+        "C03" => PropertyCheck { parts: vec![Box::new(Part(Arc::new(scn_multi::C03)))], rule: RULE_T, quick_s: 25, thorough_s: 900, assumptions: vec![], checked_build: false },
+        "C08" => PropertyCheck { parts: vec![Box::new(Part(Arc::new(scn_hist::Hist { property: "C08", flavour: scn_hist::Flavour::Reservations })))], rule: RULE_H, quick_s: 20, thorough_s: 600, assumptions: vec![], checked_build: true },
+        "C10" => PropertyCheck { parts: vec![Box::new(Part(Arc::new(scn_hist::Hist { property: "C10", flavour: scn_hist::Flavour::Lifetimes })))], rule: RULE_H, quick_s: 20, thorough_s: 600, assumptions: vec![], checked_build: false },
+        "C15" => PropertyCheck { parts: vec![Box::new(Part(Arc::new(scn_hist::Hist { property: "C15", flavour: scn_hist::Flavour::WrapAround })))], rule: RULE_H, quick_s: 20, thorough_s: 600, assumptions: vec![], checked_build: true },
+        "C16" => PropertyCheck { parts: vec![Box::new(Part(Arc::new(scn_hist::Hist { property: "C16", flavour: scn_hist::Flavour::Rejections })))], rule: RULE_H, quick_s: 20, thorough_s: 600, assumptions: vec![], checked_build: false },
+        "C05" => PropertyCheck { parts: vec![Box::new(Part(Arc::new(scn_hist::Hist { property: "C05", flavour: scn_hist::Flavour::Teardown })))], rule: RULE_H, quick_s: 20, thorough_s: 600, assumptions: vec![], checked_build: false },
+        "C09" => PropertyCheck { parts: vec![Box::new(Part(Arc::new(scn_multi::C09)))], rule: RULE_T, quick_s: 25, thorough_s: 900, assumptions: vec![], checked_build: false },
+        "C17" => PropertyCheck { parts: vec![Box::new(Part(Arc::new(scn_multi::C17)))], rule: RULE_T, quick_s: 25, thorough_s: 900, assumptions: vec![], checked_build: false },
+        "C04" => PropertyCheck { parts: vec![Box::new(Part(Arc::new(scn_uni::C04Uni))), Box::new(Part(Arc::new(scn_multi::C04Multi)))], rule: RULE_T, quick_s: 40, thorough_s: 900, assumptions: vec![], checked_build: false },
         _ => return None,
     })
 }
 
 fn all_parts() -> Vec<Box<dyn PartRunner>> {
     let mut v: Vec<Box<dyn PartRunner>> = vec![];
-    for p in ["C01", "C02", "C03", "C04", "C06", "C09", "C17", "C11", "C12", "C13", "C18"] {
+    for p in ["C01", "C02", "C03", "C04", "C05", "C06", "C08", "C10", "C15", "C16", "C09", "C17", "C11", "C12", "C13", "C18"] {
         if let Some(pc) = registry(p) {
             v.extend(pc.parts);
         }
@@ -90,7 +102,7 @@ fn main() {
             };
             let cfg = CheckCfg::from_env(tier, pc.quick_s, pc.thorough_s);
             println!("{} {}: VERIF_SEED={} budget={}s workers={}", property, tier.name(), cfg.verif_seed, cfg.budget.as_secs(), cfg.workers);
-            let outcome = check_scenarios(&property, &cfg, pc.parts, pc.rule, pc.assumptions);
+            let outcome = check_scenarios(&property, &cfg, pc.parts, pc.rule, pc.assumptions, pc.checked_build);
             std::process::exit(outcome.exit_code);
         }
         "replay" => {
